@@ -178,6 +178,10 @@ def judge(sc, r):
         bad.append("handlers that never returned after every client had gone: %s" % r["not_returned"])
     if r["clients_gauge_delta"] != 0:
         bad.append("ws_connected_clients off by %d" % r["clients_gauge_delta"])
+    elif r.get("clients_gauge_imbalance"):
+        # the total is back, a label's series is not (connections of two apps: the app key a connection was counted under
+        # is the one it must be discounted under, whatever session it was in)
+        bad.append("ws_connected_clients: the total is back but its per-app series are off by %d in sum" % r["clients_gauge_imbalance"])
     if r["sessions_left"] != 0:      # (the session gauge itself is C07's subject)
         bad.append("sessions left behind: registry %d, gauge %+d" % (r["sessions_left"], r["sessions_gauge_delta"]))
     if r["goroutines_delta"] > 0:
@@ -427,6 +431,8 @@ def run(work, tier, replay=None):
                 bad.append("handlers that never returned: %s" % r["not_returned"])
             if r["clients_gauge_delta"] or r["goroutines_delta"] > 0:
                 bad.append("gauge %+d, goroutines %+d" % (r["clients_gauge_delta"], r["goroutines_delta"]))
+            elif r.get("clients_gauge_imbalance") and r["all_returned"]:
+                bad.append("ws_connected_clients: per-app series off by %d in sum" % r["clients_gauge_imbalance"])
             if sc.get("expect_ok"):
                 for x in r["results"]:
                     if x.get("ok") is False:
